@@ -57,7 +57,10 @@ def run(ctx, rep):
         if fld is None and not any(x[0] == 'field' and x[2] in H.FIELDS for x in walk(e.args[0])):
             continue    # an insert into a delta that is being read from an env directory, not an implicit path
         views = [(v, oc) for cd, vs, subj in guards_of(E2, e) if cd.kind == 'bool' for v, oc in vs]
-        ins.append(H.Entry(fld, e.args[0], e.args[1], e.args[2], e.args[3], views, e.where(), 'insert'))
+        # a loop over a table that is literal only in the caller's terms (the rows handed to a private helper as a
+        # slice) is unrolled here, row by row, like lib/effects does for a loop over a table literal of its own function
+        for a, vs2, opq in H.unrolled(E2, e, tuple(e.args[:4]), views):
+            ins.append(H.Entry(fld, a[0], a[1], a[2], a[3], vs2, e.where(), 'insert', opq))
     # ... and every entry the two implicit-path deltas are *constructed* with (`LayerEnvDelta { entries: rows.iter()
     # .map(..).filter(..).flat_map(..).collect() }` placed into the returned LayerEnv, directly or through a local closure /
     # private helper): the same records, the predicates of the filtering stages taking the place of the branch decisions.
@@ -178,6 +181,10 @@ def run(ctx, rep):
         rep.check(bool(readers) and not bad_readers, 'R5', 'readers/' + fld, where,
                   'read only by apply (and private helpers only apply reaches)', 'read by %s (the writer must never see it)' % (bad_readers or readers))
     # the writer persists exactly the four explicit scopes
-    wf, wt, wcalls = L.writer_scope_table(prog, sl)
+    # (the writer's effects are taken over values in which a Vec grown through `&mut` — vec![..] + extend / push — before
+    # it is iterated is the chain of all its rows (C03_helpers.GrowSlicer, exact or opaque, never the initial literal
+    # alone): a table of (directory, delta) pairs assembled in steps is unrolled like a literal table)
+    from .C03_helpers import GrowSlicer
+    wf, wt, wcalls = L.writer_scope_table(prog, GrowSlicer(prog))
     rep.check(sorted(wt) == ['all', 'build', 'launch', 'process[*]'] and all(sc is not None for _, sc, _, _, _ in wcalls), 'R5', 'writer/scopes',
               '%s:%d' % (wf.file, wf.line), 'write_to_layer_dir persists all, build, launch, process only', 'writer persists %s' % sorted(map(str, wt)))
